@@ -200,6 +200,27 @@ func ruleWIRE(w *World, r *Report, only ...string) {
 						r.ok("WIRE", k, w.ipos(x), fmt.Sprintf("allocation size from %s bounded above by %s before the allocation", src, iv.hi))
 					}
 				case *ssa.Slice:
+					// INSLICE: constant bounds on a byte-slice parameter (raw input)
+					if par, isPar := x.X.(*ssa.Parameter); isPar && isByteSlice(par.Type()) {
+						need := int64(-1)
+						for _, bd := range []ssa.Value{x.Low, x.High} {
+							if bd == nil {
+								continue
+							}
+							if c, ok := constInt(bd); ok && c > need {
+								need = c
+							}
+						}
+						if need > 0 {
+							nSinks++
+							k := key("INSLICE")
+							if lo := lenLowerBound(rc, par, b, fn, x); lo >= need {
+								r.ok("WIRE", k, w.ipos(x), fmt.Sprintf("%s[...%d...] used where len(%s) >= %d is established", par.Name(), need, par.Name(), lo))
+							} else {
+								r.bad("WIRE", k, w.ipos(x), fmt.Sprintf("input bytes %s are sliced at constant offset %d but only len >= %d is established at this point: a file truncated below %d bytes panics", par.Name(), need, lo, need))
+							}
+						}
+					}
 					// S3
 					for _, bound := range []ssa.Value{x.Low, x.High, x.Max} {
 						if bound == nil {
@@ -221,6 +242,7 @@ func ruleWIRE(w *World, r *Report, only ...string) {
 						}
 					}
 				case *ssa.BinOp:
+					_ = x
 					// S4
 					if x.Op != token.QUO && x.Op != token.REM {
 						continue
@@ -243,6 +265,25 @@ func ruleWIRE(w *World, r *Report, only ...string) {
 						r.bad("WIRE", k, w.ipos(x), fmt.Sprintf("divisor from %s can be zero: %s", src, why))
 					}
 				case *ssa.Call:
+					// INSLICE for fixed-width reads of a byte-slice parameter
+					if nm := calleeName(&x.Call); strings.Contains(nm, "Endian).Uint") && len(x.Call.Args) == 2 {
+						if par, isPar := x.Call.Args[1].(*ssa.Parameter); isPar && isByteSlice(par.Type()) {
+							need := int64(8)
+							switch {
+							case strings.HasSuffix(nm, "Uint16"):
+								need = 2
+							case strings.HasSuffix(nm, "Uint32"):
+								need = 4
+							}
+							nSinks++
+							k := key("INSLICE")
+							if lo := lenLowerBound(rc, par, b, fn, x); lo >= need {
+								r.ok("WIRE", k, w.ipos(x), fmt.Sprintf("%d-byte read of %s where len >= %d is established", need, par.Name(), lo))
+							} else {
+								r.bad("WIRE", k, w.ipos(x), fmt.Sprintf("a %d-byte integer is read from input bytes %s where only len >= %d is established: shorter input panics", need, par.Name(), lo))
+							}
+						}
+					}
 					// BUFNEXT
 					if f := x.Call.StaticCallee(); f == nil || f.String() != "(*bytes.Buffer).Next" {
 						continue
@@ -699,4 +740,106 @@ func stripAllConv(v ssa.Value) ssa.Value {
 			return v
 		}
 	}
+}
+
+func isByteSlice(t types.Type) bool {
+	sl, ok := t.Underlying().(*types.Slice)
+	if !ok {
+		return false
+	}
+	b, ok := sl.Elem().Underlying().(*types.Basic)
+	return ok && b.Kind() == types.Uint8
+}
+
+// lenLowerBound returns the lower bound established for len(par) at block b:
+// from dominating comparisons on len(par) (including len%k == 0 together with len != 0),
+// or from a dominating successful parse of a fixed-size header out of a buffer over par.
+func lenLowerBound(rc *rangeCtx, par *ssa.Parameter, b *ssa.BasicBlock, fn *ssa.Function, at ssa.Instruction) int64 {
+	rcx = rc
+	full := rc.full(types.Typ[types.Int])
+	isLen := func(side ssa.Value) bool {
+		lc := isBuiltinCall(side, "len")
+		return lc != nil && lc.Call.Args[0] == ssa.Value(par)
+	}
+	cm := cmpsAt(b)
+	iv := refineMatch(isLen, &ival{lo: big.NewInt(0), hi: full.hi}, cm)
+	lo := int64(0)
+	if iv.lo.IsInt64() {
+		lo = iv.lo.Int64()
+	}
+	// len % k == 0 and len >= 1  =>  len >= k
+	if lo >= 1 {
+		for _, c := range cm {
+			if c.Op != token.EQL || c.Y == nil {
+				continue
+			}
+			for _, pr := range [][2]ssa.Value{{c.X, c.Y}, {c.Y, c.X}} {
+				if z, ok := constInt(pr[1]); !ok || z != 0 {
+					continue
+				}
+				if bo, ok := pr[0].(*ssa.BinOp); ok && bo.Op == token.REM && isLen(bo.X) {
+					if k, ok := constInt(bo.Y); ok && k > lo {
+						lo = k
+					}
+				}
+			}
+		}
+	}
+	// a fixed-size header was read successfully from bytes.NewBuffer(par) before
+	for _, c := range callInstrs(fn) {
+		cl, ok := c.(*ssa.Call)
+		if !ok {
+			continue
+		}
+		callee := cl.Call.StaticCallee()
+		if callee == nil || len(cl.Call.Args) == 0 {
+			continue
+		}
+		nb := callOf(cl.Call.Args[0], "bytes.NewBuffer")
+		if nb == nil || nb.Call.Args[0] != ssa.Value(par) {
+			continue
+		}
+		// the callee must read a fixed-size struct with binary.Read
+		size := fixedHeaderSize(callee)
+		if size <= lo {
+			continue
+		}
+		// success edge dominates
+		var errv ssa.Value
+		for _, ref := range referrersOf(cl) {
+			if ex, ok := ref.(*ssa.Extract); ok && isErrorType(ex.Type()) {
+				errv = ex
+			}
+		}
+		if errv == nil {
+			continue
+		}
+		for _, f := range cm {
+			if f.Op == token.EQL && f.Y != nil && ((f.X == errv && isNilConst(f.Y)) || (f.Y == errv && isNilConst(f.X))) {
+				lo = size
+			}
+		}
+	}
+	return lo
+}
+
+// fixedHeaderSize: the encoded size of the struct a function reads with its first binary.Read from its buffer parameter.
+func fixedHeaderSize(fn *ssa.Function) int64 {
+	for _, c := range callInstrs(fn) {
+		f := c.Common().StaticCallee()
+		if f == nil || f.String() != "encoding/binary.Read" || len(c.Common().Args) < 3 {
+			continue
+		}
+		t := stripConv(c.Common().Args[2]).Type()
+		if p, ok := t.(*types.Pointer); ok {
+			if st, ok := p.Elem().Underlying().(*types.Struct); ok {
+				sz := int64(0)
+				for i := 0; i < st.NumFields(); i++ {
+					sz += types.SizesFor("gc", "amd64").Sizeof(st.Field(i).Type())
+				}
+				return sz
+			}
+		}
+	}
+	return 0
 }
